@@ -33,7 +33,8 @@ from .union_model import Cm, incube
 
 OBLIGATION_FLOOR = 40
 Z3_TIMEOUT_MS = 40000
-UNITS = ['UnitCube', 'Union', 'NeuralBound', 'NautilusBound', 'Ellipsoid']
+UNITS = ['UnitCube', 'Union', 'NeuralBound', 'NautilusBound', 'Ellipsoid',
+         'Mixture', 'Union.restructure']
 BRANCH_COVERED_FUNCTIONS = ()
 DEAD_BRANCHES = ()
 _EX = {}
@@ -234,7 +235,27 @@ def build(cx, fe, tier, info, only=None):
     if only in (None, 'Ellipsoid'):
         from .C07_ellipsoid import ellipsoid_units
         ellipsoid_units(cx, fe, info)
+    if only in (None, 'Mixture'):
+        from .C07_mixture import mixture_units
+        mixture_units(cx, fe, info)
+    if only in (None, 'Union.restructure'):
+        # split / trim leave no stale proposals behind: their contracts (shared
+        # with C13) end with an empty cache, which is the cache invariant of
+        # Union.sample above; and they keep every construction point in some
+        # member (partition post of split)
+        from . import C13
+        keep = _EX.get('ex')
+        for u in ('trim', 'split'):
+            info3 = dict(functions=[])
+            C13.build(cx, fe, tier, info3, only=u)
+            info['functions'] = info.get('functions', []) + \
+                info3['functions']
+        if keep is not None:
+            _EX['ex'] = keep
     info['assumptions'] = [
+        'C07: UnitCubeEllipsoidMixture: the laws of complementary column '
+        'sets (cube part / ellipsoid part of a point) are axioms; its compute() '
+        '(dimension selection loops) is bounded only',
         'C07: members of a Union implement member.sample(n) subset of '
         'member.contains (Ellipsoid / mixture: vector-algebra argument, see '
         'notes); emulator.predict is row-wise',
